@@ -27,14 +27,15 @@ open PicoSVG
 
 /-- reviewed set-order sites:
     * `_GRADIENT_FIELDS["stop"] = tuple({...})` — the tuple's order is hash dependent, but the table is only indexed with
-      gradient tags (`_apply_gradient_template`) and used for membership (`_attr_supported`);
+      gradient tags (`_apply_gradient_template`, its only reader by name: `readers=` lists every function that mentions the
+      table, so a new reader breaks this pin and has to be reviewed) and used for membership (`_attr_supported`);
     * `bad_paths`, `path_allowlist` — consumed by `any(...)`;
     * `paths_required` — orders the *messages* of the ValueError raised by topicosvg, never the output. -/
 theorem gen_set_sites : Gen.Det.setSites =
-    ["svg:<module>|call:tuple:ORDER-EXPOSED|_GRADIENT_FIELDS[\"stop\"] = tuple({\"offset\", \"stop_color\", \"stop_opacity\"})",
+    ["svg:<module>|call:tuple:ORDER-EXPOSED|_GRADIENT_FIELDS[\"stop\"] = tuple({\"offset\", \"stop_color\", \"stop_opacity\"})|readers=SVG._apply_gradient_template",
      "svg:SVG.checkpicosvg|comp->any:order-free|bad_paths",
      "svg:SVG.checkpicosvg|comp->any:order-free|path_allowlist",
-     "svg:SVG.checkpicosvg|for|paths_required"] := by decide
+     "svg:SVG.checkpicosvg|for|paths_required"] := by decide +kernel
 
 theorem gen_identity_sites : Gen.Det.identitySites = [] := by decide
 
